@@ -24,7 +24,7 @@ import z3
 from vf.core import Ctx, Unsupported
 from vf.harness import Check
 from vf.replay import differs, subs_from_assignment
-from vf.solve import Obligation, discharge, identity_obligations, side_obligations
+from vf.solve import Obligation, Result, discharge, identity_obligations, side_obligations
 from vf.sym2smt import Translator
 
 
@@ -298,7 +298,40 @@ def cfg_param(config, tier, seed):
             return {"reproduced": bool(abs(sp.im(val)) > 1e-15), "value": str(val)}
         return {"reproduced": False}
 
-    return discharge(ctx, obs + side_obligations(ctx), config=config["name"], replay=replay, timeout_s=config.get("timeout", 60))
+    res = discharge(ctx, obs + side_obligations(ctx), config=config["name"], replay=replay, timeout_s=config.get("timeout", 60))
+    return res + _witness_search_symmetry(config, res, Kexpr)
+
+
+
+def _witness_search_symmetry(config, res, Kexpr):
+    """Only after the solver left a `K symmetric` obligation undecided: evaluate the library's K_ij and K_ji at a few
+    rational points above all thresholds. A difference is a counterexample on the real code (VIOLATION); agreement
+    proves nothing and the obligation stays INCONCLUSIVE."""
+    import random
+
+    out, done = [], set()
+    for r in res:
+        head = r.name.split("::")[0]
+        if r.status != "unknown" or not head.startswith("K symmetric[") or head in done:
+            continue
+        done.add(head)
+        i, j = (int(k) for k in head[head.index("[") + 1 : head.index("]")].split(","))
+        lhs, rhs = Kexpr[i, j].doit(), Kexpr[j, i].doit()
+        rng = random.Random(9)
+        for _ in range(6):
+            subs = {}
+            for q, sym in enumerate(sorted(lhs.free_symbols | rhs.free_symbols, key=str)):
+                subs[sym] = sp.Rational(rng.randint(1, 40), rng.choice([7, 11, 13])) if str(sym) != "s" else sp.Rational(rng.randint(400, 900), 7)
+            try:
+                rep = differs(lhs, rhs, subs)
+            except Exception:  # noqa: BLE001
+                continue
+            if rep.get("reproduced"):
+                rep["point"] = {str(k): str(v) for k, v in subs.items()}
+                out.append(Result(name=f"{head}: concrete witness after solver unknown", kind="ground", status="fail", config=config["name"], replay=rep,
+                                  selector=f"{config['name']}::{head}: concrete witness after solver unknown"))  # fmt: skip
+                break
+    return out
 
 
 def worker(config, tier, seed):
